@@ -50,7 +50,7 @@ def run(ctx):
     n = g + "validate_non_fungible_ids"
     if n in F.fns:
         bs = ctx.bodies_of(n)
-        got = {v.rsplit("::", 1)[1] for x in bs for v in x.fn.vars if "ResourceConstraintError::" in v}
+        got = {v.rsplit("::", 1)[-1] for x in bs for v in x.fn.vars if "ResourceConstraintError::" in v}
         b = ctx.body(n)
         allow = b.try_guards(r"AllowedIds::validate_ids$")
         al = [x for x in F.fns if x.endswith("AllowedIds::validate_ids")]
@@ -67,7 +67,7 @@ def run(ctx):
     n = M + "ManifestResourceConstraints::validate"
     if ctx.anchor(n):
         bs = ctx.bodies_of(n)
-        got = {v.rsplit("::", 1)[1] for x in bs for v in x.fn.vars if "ResourceConstraintsError::" in v}
+        got = {v.rsplit("::", 1)[-1] for x in bs for v in x.fn.vars if "ResourceConstraintsError::" in v}
         ctx.ob("constraints|validate-rejections", {"UnexpectedNonZeroBalanceOfUnspecifiedResource", "ResourceConstraintFailed"} <= got, f"validate can raise {sorted(got)}", F.fns[n].loc())
     ctx.rule("T8 necessary comparisons of GeneralResourceConstraint::is_valid_independent_of_resource_type: a constraint is declared valid only "
              "after (1) lower vs upper bound, (2) number of required ids vs upper bound and (3) lower bound vs the allow-list size have each "
